@@ -1194,19 +1194,26 @@ def infeasible_edges_from(fn, start, stop):
     and `stop`.  (`let counted = match site { .. InsufficientData => false }; if !counted { skip() }`: from the InsufficientData arm the
     `counted` edge cannot be taken.)"""
     out = set()
-    near = fn.reachable_from(start, avoid={stop} if stop is not None else set()) | {start}
-    for sb, st in fn.switches():
-        if sb not in near:
-            continue
-        for t in set(fn.succ.get(sb, [])):
-            D = edge_provenance(fn, sb, t)
-            if not D:
-                continue
-            alld = getattr(fn, "_prov_alld", {}).get((sb, t), set())
-            if sb in fn.reachable_from(start, avoid=alld) and start not in alld:
-                continue  # the value may have been defined before `start`
-            if not (D & near):
-                out.add((sb, t))
+    provs = None
+    # to a fixpoint: an edge found infeasible may cut off the only definitions another edge would need (a failure handed up through
+    # two helpers: `None => return Err(..)` in one, `?` on that Err in the next)
+    for _ in range(6):
+        near = reachable_with_edges_removed(fn, start, {stop} if stop is not None else set(), out) | {start}
+        if provs is None:
+            provs = []
+            for sb, st in fn.switches():
+                for t in set(fn.succ.get(sb, [])):
+                    D = edge_provenance(fn, sb, t)
+                    if not D:
+                        continue
+                    alld = getattr(fn, "_prov_alld", {}).get((sb, t), set())
+                    if sb in fn.reachable_from(start, avoid=alld) and start not in alld:
+                        continue  # the value may have been defined before `start`
+                    provs.append((sb, t, D))
+        new = {(sb, t) for sb, t, D in provs if sb in near and not (D & near)}
+        if new <= out:
+            break
+        out |= new
     return out
 
 
